@@ -368,8 +368,10 @@ func c04Judge(p C04Phase, wn *WNode, n *netceptor.Netceptor, started time.Time) 
 	// (paused by the harness, or simply slow on a busy machine) is the known finding, a runner that reported in time and is
 	// not followed is not
 	abandonedSigFor := func(id string) (string, string) {
-		late, why := c04RunnerReportedLate(statusRecs[id])
-		if slow == "slow-runner" || late {
+		late, why := c04RunnerReportedLate(c04StatusLog(p.Dir)[id]) // read now: the runner may have reported since the judge started
+		vx.Debugf("C04 unit %s: %s (outside the listening interval: %v)", id, why, late)
+		_ = slow
+		if late {
 			return "C04/launched-command-abandoned-at-restart:slow-runner", why
 		}
 		return "C04/launched-command-abandoned-at-restart:prompt-runner", why
@@ -642,10 +644,18 @@ func c04RunnerReportedLate(recs []c04StatusRec) (bool, string) {
 		if !strings.Contains(r.detail, "Pending at restart") {
 			continue
 		}
+		if r.pid != os.Getpid() {
+			// the incarnation that declared the unit failed was itself killed later: whether it was still alive and listening when
+			// the runner reported cannot be told; the incarnation judged here found a final state and does not monitor at all
+			return true, "the verdict was written by an earlier incarnation that was killed in turn"
+		}
 		for _, n := range recs[i+1:] {
 			if n.pid != r.pid {
 				d := time.Duration(n.t - r.t)
-				return d > 900*time.Millisecond, fmt.Sprintf("runner reported %v after the restarted daemon's verdict", d.Round(time.Millisecond))
+				// the restarted daemon's monitor is certainly listening from shortly after the verdict (watch registered) until
+				// its first one-second look; a report outside that interval is not picked up - that is the known finding
+				outside := d < 150*time.Millisecond || d > 800*time.Millisecond
+				return outside, fmt.Sprintf("runner reported %v after the restarted daemon's verdict", d.Round(time.Millisecond))
 			}
 		}
 		return true, "runner did not report after the restarted daemon's verdict"
